@@ -219,6 +219,14 @@ def main(argv=None):
         lines.append(f"VIOLATION property={pid} replay={path} no-failing-input-found")
     wall = time.time() - t0
     on_repo = os.path.realpath(os.environ.get("QVERIF_REPO", "/repo")) == os.path.realpath("/repo")
+    if not on_repo and getattr(mod, "pregenerate", None) is not None and not args.no_lean:
+        # a scratch-tree run regenerated lean/QuantemModel/Generated/* from that tree: put the
+        # translation of /repo back so that the working tree of /verif stays what /repo says
+        try:
+            os.environ["QVERIF_REPO"] = "/repo"
+            mod.pregenerate()
+        except Exception:
+            traceback.print_exc()
     if not args.no_lean and on_repo:
         # development runs without the Lean stage, and runs against a scratch tree (seeded
         # changes), never write evidence: evidence comes from /repo itself
